@@ -59,3 +59,17 @@ Example C10_example :
   wf_numeral u = true /\ exp_fits u = true /\ zero_int_then_exp u = false /\
   scan (render u) = Some (mknum true [x31; x32; x33; x34] 1).
 Proof. vm_compute. repeat split; reflexivity. Qed.
+
+(* bytes.ParseUint (exponents of numerals, and the parameters of minLength, maxLength, minItems,
+   maxItems, precision) is exact for digit strings of ANY length: what it returns is the number
+   the digits spell, and it refuses - instead of wrapping modulo 2^64, the defect repaired by
+   c58a671 - exactly when that number does not fit 64 bits. *)
+Theorem C10_parse_uint_exact : forall bs n, NumSpec.all_digits bs = true ->
+  NumModel.parse_uint bs = Some n -> n = NumSpec.dec bs /\ (n < NumModel.two64)%N.
+Proof. exact NumProofs.parse_uint_exact. Qed.
+Print Assumptions C10_parse_uint_exact.
+
+Theorem C10_parse_uint_refuses_overflow : forall bs, NumSpec.all_digits bs = true ->
+  (NumModel.two64 <= NumSpec.dec bs)%N -> NumModel.parse_uint bs = None.
+Proof. exact NumProofs.parse_uint_refuses_overflow. Qed.
+Print Assumptions C10_parse_uint_refuses_overflow.
